@@ -14,7 +14,10 @@
              checker, evaluated inside Coq; the hand model of _make_graphs and of longest_path is
              evaluated inside Coq against the graphs the real code built (correspondence);
              the TikZ text is parsed: one \\coordinate per node at its position, every component once
-  search     the same generator; a failing schematic is shrunk by deleting components
+  search     the same generator (incl. loops with a fixed component in the middle of a slack chain, all four
+             directions, both listing orders); a failing schematic is shrunk by deleting components while its
+             classification key is preserved; known findings are keyed by violated-constraint kind + root-cause
+             signature (see classify())
 """
 import hashlib
 import json
@@ -843,6 +846,7 @@ def own_violated(res):
             continue
         how = g.get('assigned') or {}
         walked = g.get('walked') or {}
+        rule_ok = g.get('rule_ok') or {}
         for cpt, f, t, size, stretch in g['edges']:
             if f[0] not in sol or t[0] not in sol:
                 continue
@@ -850,6 +854,7 @@ def own_violated(res):
             if (stretch and slack < 0) or (not stretch and slack != 0):
                 bad.append({'ax': ax, 'kind': 'ge' if stretch else 'eq', 'cpt': cpt, 'f': f, 't': t, 'size': size,
                             'slack': fstr(slack), 'how_f': how.get('|'.join(f)), 'how_t': how.get('|'.join(t)),
+                            'rule_f': rule_ok.get('|'.join(f)), 'rule_t': rule_ok.get('|'.join(t)),
                             'f_on_walk_of_t': '|'.join(f) in walked.get('|'.join(t), ['|'.join(f)]),
                             't_on_walk_of_f': '|'.join(t) in walked.get('|'.join(f), ['|'.join(t)])})
         for n, members in g['cnodes'].items():
@@ -865,6 +870,9 @@ def graph_signature(item):
     """root-cause signature of one violated >= edge of the graph placer, from the stage that positioned
     its end points (recorded by the observation-only trace in tools/impl_schem.py), or None"""
     hf, ht = item.get('how_f'), item.get('how_t')
+    if item.get('rule_f') is not True or item.get('rule_t') is not True:
+        # an end point is NOT where the documented rule of its stage puts it: not the recorded defect
+        return None
     if hf == 'dangling' or ht == 'dangling':
         # positioned by the start/end ("dangling") branch of assign_stretchy1 / path_to_closest_known
         return 'Graph.assign_stretchy:stretchy-ge-violated:dangling-path'
@@ -901,7 +909,8 @@ def classify(case, res, spec_bad):
         return new_key, det
     spec_kinds = set(c[3] for ax in ('x', 'y') for c in spec_bad.get(ax, []))
     if method == 'graph':
-        if all(o['kind'] == 'eq' and o.get('how_f') in RIGID and o.get('how_t') in RIGID for o in own) and spec_kinds == {'eq'}:
+        if all(o['kind'] == 'eq' and o.get('how_f') in RIGID and o.get('how_t') in RIGID and
+               o.get('rule_f') is True and o.get('rule_t') is True for o in own) and spec_kinds == {'eq'}:
             # a redundant fixed edge between two nodes that were BOTH positioned rigidly (critical path /
             # assign_fixed1 through another fixed edge) and never by the stretch stage
             det['signatures'] = ['Graph.assign_fixed:fixed-eq-violated:rigid-fixed-chain']
@@ -1349,9 +1358,15 @@ def run(tier='quick', replay=None):
                            'theorems constraints_from_hints / place_iff_all_pairs assume size > 0 (lcapy replaces size 0 by 1e-9)',
                            'DAG hypothesis of longest_path_feasible is a rank function (topological height)']
         res.notes = ['PARTIAL: Graph.prune/assign_fixed/assign_stretchy and Lineq.solve are validated per generated schematic, not proved; '
-                     'they are known to violate the property (known_findings.json: Graph.assign_stretchy, Lineq.add, Lineq.solve)',
-                     'classification of a violating placement as a known solver defect requires that the output of lcapy\'s solve stage alone '
-                     'violates lcapy\'s own constraint structure (which is validated against the hand model inside Coq); anything else is reported as new',
+                     'they violate the property in the specific situations recorded in known_findings.json',
+                     'a violating placement is a KNOWN finding only when (graph) every violated constraint is a >= of a stretchy component '
+                     '[or the one recorded case of a redundant fixed edge between two rigidly positioned nodes], the solve stage alone violates '
+                     'lcapy\'s own Coq-validated graph, each violated edge carries a recorded root-cause signature (dangling-path, '
+                     'unwalked-neighbour, rigid-fixed-chain; from an observation-only trace of which stage positioned each gnode) and every end '
+                     'point sits exactly where the documented rule of that stage puts it; (lineq) the LU factor shows a rounding-residue pivot / an '
+                     'off-diagonal pivot, or the negative slacks equal the values lcapy warned about.  A violated fixed constraint of the stretch '
+                     'stage, a wrong direction, unequal linked coordinates, missing/duplicate positions are always reported as new; shrinking '
+                     'keeps the classification key',
                      'not covered: offset=, rotate by non-multiples of 90 (and totals of 270), mirror/invert, implicit/ground nodes, aspect=, '
                      'transistors, K, inamp/fdopamp/RV (pins whose position lcapy rescales by 2*scale/width)']
         if not theory_ready():
